@@ -77,6 +77,8 @@ def worker_init():
 def direct_run(f, kind, combos, fn_args, cs, constants):
     import xyzpy as xyz
 
+    constants = dict(constants) if constants else None
+
     dcombos = {a: v for a, v in combos} if combos else None
     if kind == "grid":
         return xyz.combo_runner(f, dcombos, constants=constants, verbosity=0)
@@ -150,6 +152,8 @@ def grow_all(crop_factory, B, order, via):
 
 def make_crop_and_sow(f, d, case, combos, fn_args, cs, constants):
     import xyzpy as xyz
+
+    constants = dict(constants) if constants else None
 
     kind = case["kind"]
     kws = {}
